@@ -186,6 +186,34 @@ def check_timer_replacement(prog, r):
                 n += 1
                 r.fail(root_name(prog, k), "timer-accumulated:" + sorted(hit)[0], "a timer deadline is pushed onto %s (line %d) instead of replacing it: the superseded deadline still fires and tears the "
                        "session down although the timer was re-armed or disarmed" % (sorted(hit)[0], fv.line(bi)), fv.loc(bi))
+    # each timer collection is (re)assigned only while handling its own FSM output
+    from ..util import last_field
+    want_out = {"holdtime_futures": "SetHoldTimer", "keepalive_futures": "SetKeepaliveTimer"}
+    n_assign = 0
+    for k in crate_fns(prog, "rustybgpd"):
+        nm = prog.ix[k]["name"]
+        if "::tests::" in nm or not nm.startswith("rustybgpd::event::"):
+            continue
+        fv = view(prog, k)
+        brs_ = None
+        sites = []
+        for fld in want_out:
+            sites += [(b, fld) for b, si, s_ in field_writes(fv, fld)]
+            sites += [(b, fld) for b, t in fv.calls() if t.get("dest") and last_field(t["dest"]) == fld]
+        for b, fld in sites:
+            brs_ = brs_ or branches(fv)
+            outs = set()
+            for g, l, h in flat_guards(fv, b, brs_):
+                if g[0] == "discr" and g[2] and g[2].endswith("fsm::Output"):
+                    outs |= set(l)
+            n_assign += 1
+            if outs == {want_out[fld]}:
+                r.ok("%s: %s assigned while handling %s" % (short(root_name(prog, k)), fld, want_out[fld]))
+            else:
+                r.fail(root_name(prog, k), "timer-crossed:%s<-%s" % (fld, "+".join(sorted(outs)) or "none"), "%s is assigned while handling %s (line %d): the %s timer is re-armed by the other timer's event, "
+                       "with the other timer's interval" % (fld, "/".join(sorted(outs)) or "no FSM timer output", fv.line(b), "hold" if fld.startswith("hold") else "keepalive"), fv.loc(b))
+    if n_assign < 3:
+        r.unanalysable("assignments of the timer collections outside constructors: %d (want >= 3)" % n_assign)
     # positive side: the Set*Timer arms assign the fields
     ak = [k for k in crate_fns(prog, "rustybgpd") if prog.ix[k]["name"].endswith("PeerSession::apply_outputs")]
     for k in ak:
